@@ -67,6 +67,47 @@ func (s *Session) AbortProbe(r *RNG, p Params, how string) {
 	}
 }
 
+// BigStalledCommit commits one transaction with more page writes than the background
+// writer takes in one batch (1024) while the disk is slow: the writes are held back until
+// the commit has queued everything including both of its sync requests.
+func (s *Session) BigStalledCommit(r *RNG) string {
+	if s.F == nil || s.Tx != nil || s.Cfg.MaxPages != 0 {
+		return "skip"
+	}
+	n := 1030 + r.Intn(700)
+	if s.Begin(TxOpts{}) != "ok" {
+		return "skip"
+	}
+	ids, res := s.Alloc(n)
+	if res != "ok" {
+		s.Rollback("rollback")
+		return "skip"
+	}
+	for _, id := range ids {
+		s.Write(id, "full")
+	}
+	s.Disk.Stall()
+	stop := make(chan struct{})
+	go func() {
+		for i := 0; i < 5000 && s.Disk.Stalled() == 0; i++ {
+			select {
+			case <-stop:
+				s.Disk.Release()
+				return
+			default:
+			}
+			time.Sleep(time.Millisecond)
+		}
+		time.Sleep(40 * time.Millisecond) // the commit queues the rest (it never waits before its final Wait)
+		s.Disk.Release()
+	}()
+	res = s.Commit()
+	close(stop)
+	s.Disk.Release()
+	s.mark("big-stalled-commit")
+	return res
+}
+
 // GrowTail makes the data area longer than the smallest possible limit (64 KiB) and
 // leaves a free region at its end (set-up for SessionBound).
 func (s *Session) GrowTail(r *RNG) {
